@@ -80,7 +80,7 @@ type Stats struct {
 	Done          bool           `json:"done"`
 	MaxDepth      int            `json:"max_depth"`
 	HarnessErrors []string       `json:"harness_errors,omitempty"`
-	Rule string `json:"rule,omitempty"`
+	Rule          string         `json:"rule,omitempty"`
 }
 
 type Worker struct {
@@ -97,7 +97,7 @@ type Worker struct {
 	onlyUnit string
 
 	lastBeat atomic.Int64
-	inCase atomic.Bool
+	inCase   atomic.Bool
 	finished atomic.Bool
 
 	mu       sync.Mutex
@@ -177,6 +177,9 @@ func (w *Worker) Mine(idx int) bool {
 	}
 	return idx >= w.skipTo
 }
+
+// SkipTo is the first unit index this incarnation still has to run (resume after a crash).
+func (w *Worker) SkipTo() int { return w.skipTo }
 
 func (w *Worker) OutOfTime() bool {
 	return !w.deadline.IsZero() && time.Now().After(w.deadline)
